@@ -1,5 +1,100 @@
-(* C05 - property theorems only *)
-From VT Require Import Check.C05Check.
-Theorem C05_placeholder : forall h : hcase, c05_eval h = c05_eval h.
-Proof. reflexivity. Qed.
-Print Assumptions C05_placeholder.
+(* C05 - property theorems only (proofs in Server/StepLemmas.v, Server/Events.v) *)
+From VT Require Import Server.Events.
+Open Scope N_scope.
+
+(* complete case analysis of _handle_event/_handle_event_internal on every state *)
+Theorem C05_event : forall c eio pn id data s,
+  has_actions c = false ->
+  let ns := ns_or_default pn in
+  let run := handle_event c eio pn id data s in
+  (forall x, split_event data = Err x -> run = (s, [], Err x)) /\
+  (forall ev args, split_event data = Ok (ev, args) ->
+     (is_connected (mg s) (sid_from_eio (mg s) eio ns) ns = false -> run = (s, [], Ok tt)) /\
+     (forall sid, sid_from_eio (mg s) eio ns = Some sid -> is_connected (mg s) (Some sid) ns = true ->
+        is_unhashable ev = false ->
+        (responsible c ev ns (PStr sid :: args) = None -> run = (s, [], Ok tt)) /\
+        (forall h a b v,
+            responsible c ev ns (PStr sid :: args) = Some (Some h, a) -> is_disconnect ev = false ->
+            aget N.eqb (behav c) h = Some b -> arity_bad b (List.length a) = false ->
+            h_outcome b = Returns v ->
+            run = (s, Call h a :: ack_effs c s eio ns id v, ack_res c ns id v)) /\
+        (forall e a, ev = PStr e -> responsible c ev ns (PStr sid :: args) = Some (None, a) ->
+            run = (s, ack_effs c s eio ns id PNone, ack_res c ns id PNone)))) /\
+  fst (fst run) = s /\ forallb (str_eqb eio) (out_eios (snd (fst run))) = true.
+Proof. exact event_cases. Qed.
+Print Assumptions C05_event.
+
+(* malformed payloads and unconnected transports: for every configuration, scripted actions or not *)
+Theorem C05_event_malformed : forall c eio pn id data s x,
+  split_event data = Err x -> handle_event c eio pn id data s = (s, [], Err x).
+Proof. exact handle_event_malformed. Qed.
+Print Assumptions C05_event_malformed.
+
+Theorem C05_event_not_connected : forall c eio pn id data s ea,
+  split_event data = Ok ea ->
+  is_connected (mg s) (sid_from_eio (mg s) eio (ns_or_default pn)) (ns_or_default pn) = false ->
+  handle_event c eio pn id data s = (s, [], Ok tt).
+Proof. exact handle_event_not_connected. Qed.
+Print Assumptions C05_event_not_connected.
+
+(* a responsible handler that raises or does not fit: at most its one invocation, no ACK *)
+Theorem C05_event_handler_fails : forall c eio pn id data s ev args sid h a,
+  has_actions c = false ->
+  split_event data = Ok (ev, args) -> is_unhashable ev = false -> is_disconnect ev = false ->
+  sid_from_eio (mg s) eio (ns_or_default pn) = Some sid ->
+  is_connected (mg s) (Some sid) (ns_or_default pn) = true ->
+  responsible c ev (ns_or_default pn) (PStr sid :: args) = Some (Some h, a) ->
+  (forall v, snd (ch_pure c h a) <> Ok v) ->
+  exists x, handle_event c eio pn id data s = (s, fst (ch_pure c h a), Err x) /\
+            (fst (ch_pure c h a) = [] \/ fst (ch_pure c h a) = [Call h a]).
+Proof. exact event_handler_fails. Qed.
+Print Assumptions C05_event_handler_fails.
+
+(* what the acknowledgement consists of *)
+Theorem C05_ack_frames : forall c s eio ns v,
+  ack_effs c s eio ns None v = [] /\
+  (forall i fr, frames_of c ACK (PList (pack v)) ns (Some i) = Ok fr ->
+     ack_effs c s eio ns (Some i) v = (if is_live s eio then map (Out eio) fr else []) /\
+     ack_res c ns (Some i) v = Ok tt).
+Proof. exact ack_effs_spelled. Qed.
+Print Assumptions C05_ack_frames.
+
+Theorem C05_pack :
+  pack PNone = [] /\ (forall l, pack (PTuple l) = l) /\
+  (forall x, x <> PNone -> (forall l, x <> PTuple l) -> pack x = [x]).
+Proof. exact pack_cases. Qed.
+Print Assumptions C05_pack.
+
+Theorem C05_ack_binary_iff_bytes : forall ub v ns i,
+  ctor ub ACK (PList (pack v)) (Some ns) (Some i) None =
+  Ok (mkPacket (PInt (if ub && has_bytes (PList (pack v)) then BINARY_ACK else ACK))
+               (Some ns) (Some i) (PList (pack v))).
+Proof. exact ack_binary_iff_bytes. Qed.
+Print Assumptions C05_ack_binary_iff_bytes.
+
+(* handlers are invoked in the order of the messages, at most once per message *)
+Theorem C05_order : forall c,
+  has_actions c = false ->
+  forall ops s, event_stream c s ops = true ->
+    calls_of (List.concat (snd (run c s ops))) = expected_calls c s ops /\
+    mg (fst (run c s ops)) = mg s.
+Proof. exact order_of_calls. Qed.
+Print Assumptions C05_order.
+
+Theorem C05_one_call_per_message : forall c s o,
+  has_actions c = false -> event_or_quiet c s o = true ->
+  calls_of (snd (step c s o)) = expected_call c s o /\ mg (fst (step c s o)) = mg s /\
+  (List.length (calls_of (snd (step c s o))) <= 1)%nat.
+Proof. exact step_event_or_quiet. Qed.
+Print Assumptions C05_one_call_per_message.
+
+(* executable form: the checker that judges the implementation accepts the model's own behaviour *)
+Theorem C05_model_passes_checker : forall c s o,
+  has_actions c = false -> c05_step c s o (snd (step c s o)) = true.
+Proof. exact model_passes_c05_step. Qed.
+Print Assumptions C05_model_passes_checker.
+
+Theorem C05_model_passes_checker_all : forall c,
+  has_actions c = false -> forall ops s, all_steps (c05_step c) c s ops (snd (run c s ops)) = true.
+Proof. exact model_passes_c05_all. Qed.
+Print Assumptions C05_model_passes_checker_all.
